@@ -94,6 +94,8 @@ CandsWire(s, sc) ==
 CandsInst(s, sc) ==
     (IF On(sc, "set_ref")
      THEN {[op |-> "set_ref", i |-> i, d |-> d] : <<i, d>> \in IdsI(s) \X (IdsD(s) \cup {None})} ELSE {})
+    \cup (IF On(sc, "unref") THEN {[op |-> "set_ref", i |-> i, d |-> None] : i \in IdsI(s)} ELSE {})
+    \cup (IF On(sc, "untop") THEN {[op |-> "set_top", n |-> n, i |-> None] : n \in IdsN(s)} ELSE {})
     \cup (IF On(sc, "create_child") /\ Room(s, sc, "I")
      THEN {[op |-> "create_child", p |-> p, name |-> nm, ref |-> d] :
               <<p, nm, d>> \in IdsD(s) \X sc.names \X (IdsD(s) \cup {None})} ELSE {})
@@ -127,7 +129,7 @@ CandsData(s, sc) ==
     \cup UNION {IF On(sc, "set_attr:" \o kind)
                 THEN {[op |-> "set_attr", kind |-> kind, x |-> x, key |-> "scalar", val |-> v] :
                          <<x, v>> \in (1..CountOf(s, kind)) \X BOOLEAN}
-                     \cup {[op |-> "set_attr", kind |-> kind, x |-> x, key |-> "lower", val |-> 2] :
+                     \cup {[op |-> "set_lower", kind |-> kind, x |-> x, ival |-> 2] :
                          x \in 1..CountOf(s, kind)}
                 ELSE {} : kind \in {"P", "C"}}
 
